@@ -144,6 +144,15 @@ DnCases == { Case("dn", [Base EXCEPT !.dn = <<E(ty, kind, "$v")>>], self, "ed255
            \cup { Case("dn", [Base EXCEPT !.dn = <<E("2.5.4.6", "printable", "$c"), E("2.5.4.10", kind, ""), E("2.5.4.3", "utf8", "$v")>>], self,
                          "ed25519", "ed25519", Kid("sha256"), "keypair") : kind \in DnKinds, self \in Bool }
 
+(* values that step outside the alphabet of their string type: rcgen's constructors refuse them (the case is then skipped);  *)
+(* should one be let through, the strict reader finds it in the emitted name ("restricted strings within their alphabets")    *)
+BadStringCases == { Case("dn-bad", [Base EXCEPT !.dn = <<E("2.5.4.10", kind, val)>>], self, "ed25519", "ed25519", Kid("sha256"), "keypair") :
+                      self \in Bool,
+                      kind \in {"printable"}, val \in {"615f62", "614062", "612a62", "c3a9"} }
+                  \cup { Case("dn-bad", [Base EXCEPT !.dn = <<E("2.5.4.10", "ia5", val)>>], TRUE, "ed25519", "ed25519", Kid("sha256"), "keypair") : val \in {"c3a9", "c280"} }
+                  \cup { Case("dn-bad", [Base EXCEPT !.dn = <<E("2.5.4.10", "teletex", val)>>], TRUE, "ed25519", "ed25519", Kid("sha256"), "keypair") : val \in {"611f62", "c3a9", "c280"} }
+                  \cup { Case("dn-bad", [Base EXCEPT !.dn = <<E("2.5.4.10", "bmp", val)>>], TRUE, "ed25519", "ed25519", Kid("sha256"), "keypair") : val \in {"f09f9880", "61f0908080", "efbfbf"} }
+
 KidMethods == {Kid("sha256"), Kid("sha384"), Kid("sha512"), KidPre(<<1, 2, 3, 4>>), KidPre(<<>>)}
 KidCases == { Case("kid", [Base EXCEPT !.isCa = ca, !.aki = TRUE, !.kid = ks], self, "ed25519", "ed25519", ki, "keypair") :
                 ks \in KidMethods, ki \in KidMethods, ca \in {NoCa, CaU, ExplicitNoCa}, self \in Bool }
@@ -207,7 +216,7 @@ OutsideIssuerCases == { Case("validity", [Base EXCEPT !.nb = nb, !.na = na, !.is
                           na \in {Tm(2039, 12, 31, 23, 59, 59), Tm(2040, 1, 1, 0, 0, 0), Tm(2040, 1, 1, 0, 0, 1), Tm(2041, 6, 1, 0, 0, 0), Tm(2055, 1, 1, 0, 0, 0),
                                   Tm(9999, 12, 31, 23, 59, 59)},
                           ca \in {NoCa, CaU} }
-Cases == PathLenKuCases \cup OutsideIssuerCases \cup LongKidCases \cup AutoSerialCases \cup PresenceCases \cup KuCases \cup PathLenCases \cup PrefixCases \cup SanCases \cup NcCases \cup DnCases
+Cases == BadStringCases \cup PathLenKuCases \cup OutsideIssuerCases \cup LongKidCases \cup AutoSerialCases \cup PresenceCases \cup KuCases \cup PathLenCases \cup PrefixCases \cup SanCases \cup NcCases \cup DnCases
          \cup KidCases \cup SerialCases \cup EkuCases \cup CustomCases \cup CustomAkiCases \cup IssuerKindCases \cup AlgCases
 
 (* ---- abstract keys for the model (the harness substitutes real keys and real digests) ---- *)
